@@ -263,13 +263,13 @@ package keeper
 //@   ensures [C10.store.owner] err == nil && msg.Proposal.PaymentDid == "" ==>
 //@       (old(has(Did, "cosmos:" + ChainID + ":" + msg.Creator)) && old(Did["cosmos:" + ChainID + ":" + msg.Creator].Did) == msg.Proposal.Owner)
 //@       || actsFor(msg.Creator, msg.Proposal.Provider, old(has(Node, msg.Proposal.Provider)), old(Node[msg.Proposal.Provider]))
-//@   ensures [C04.store.charge] err == nil && old(msg.Proposal.Size_) <= MaxInt64 && msg.Proposal.Duration <= MaxInt64 ==>
+//@   ensures [C04.store.charge] [C06.store.charge] err == nil && old(msg.Proposal.Size_) <= MaxInt64 && msg.Proposal.Duration <= MaxInt64 ==>
 //@       Order[resp.OrderId].Amount.Denom == BondDenom
 //@       && Order[resp.OrderId].Amount.Amount == div(1000000000000 * Order[resp.OrderId].Size_ * Order[resp.OrderId].Replica * Order[resp.OrderId].Duration, 1000000000000000000)
 //@            + (mod(1000000000000 * Order[resp.OrderId].Size_ * Order[resp.OrderId].Replica * Order[resp.OrderId].Duration, 1000000000000000000) == 0 ? 0 : 1)
 //@       && (addr(old(PaymentAddress[(msg.Proposal.PaymentDid != "" ? msg.Proposal.PaymentDid : msg.Proposal.Owner)].Address)) != moduleAddr("order") ==>
 //@             bal(moduleAddr("order"), BondDenom) == old(bal(moduleAddr("order"), BondDenom)) + Order[resp.OrderId].Amount.Amount)
-//@   ensures [C04.store.payer] err == nil ==> old(has(PaymentAddress, (msg.Proposal.PaymentDid != "" ? msg.Proposal.PaymentDid : msg.Proposal.Owner)))
+//@   ensures [C04.store.payer] [C06.store.payer] err == nil ==> old(has(PaymentAddress, (msg.Proposal.PaymentDid != "" ? msg.Proposal.PaymentDid : msg.Proposal.Owner)))
 //@       && (addr(old(PaymentAddress[(msg.Proposal.PaymentDid != "" ? msg.Proposal.PaymentDid : msg.Proposal.Owner)].Address)) != moduleAddr("order") ==>
 //@           bal(addr(old(PaymentAddress[(msg.Proposal.PaymentDid != "" ? msg.Proposal.PaymentDid : msg.Proposal.Owner)].Address)), BondDenom)
 //@             == old(bal(addr(PaymentAddress[(msg.Proposal.PaymentDid != "" ? msg.Proposal.PaymentDid : msg.Proposal.Owner)].Address), BondDenom)) - Order[resp.OrderId].Amount.Amount)
